@@ -15,6 +15,15 @@ CHECKS = {
             "matrices outside Cirq, and the caller's initial-state array is checked for writes.",
             "Trusts the catalogue (C03) and numpy; <=6 wires, <=25 operations; tolerance 1e-4 (complex64) / 1e-7 (complex128).",
             "DESIGN.md 5/C01"),
+    "C02": ("exploration", "scripted seed object + decision-tree explorer over the real simulators; exact reference interpreter as oracle",
+            "Every random draw of Simulator / DensityMatrixSimulator (run, simulate, StepResult.sample, the free measure_*/sample_* "
+            "functions) is dictated by a scripted seed object; the explorer re-executes the real entry point once per branch and "
+            "extracts the exact map records -> probability (and post-measurement states), which is compared with an independent "
+            "dense branching interpreter for the same abstract program (masks, confusion maps, repeated keys, qutrits, resets, "
+            "key/bitmask/sympy conditions); terminal fast path and per-repetition path both judged against the reference; "
+            "repetition independence and row decoding checked. No statistics.",
+            "Programs <=4 wires, <=7 recorded digits, <=3000 paths; branches below 1e-6 are not forced; Clifford simulators are "
+            "covered under C13. Trusts catalogue + interpreter.", "DESIGN.md 5/C02"),
     "C03": ("exploration", "runtime monitor at cirq.unitary/kraus/mixture + closed-form catalogue oracle",
             "Every generated gate instance (special-value grid x random reals, all exported families incl. qudit, Google and IonQ "
             "gates, channels, named constants) is observed through cirq.unitary / kraus / mixture / qid_shape and judged against a "
